@@ -6,13 +6,14 @@ pub fn start() {
     compiler::verif_hooks::start();
 }
 
-/// events of the kinds asked for ("mono": ensure/seeded/pop/emit/drained/tensure, "dce": pre_dce, "gensym")
+/// events of the kinds asked for ("mono": ensure/seeded/pop/emit/drained/tensure, "dce": pre_dce, "gensym", "solver": solve_start/solve_round)
 pub fn take(kinds: &[String]) -> Vec<Value> {
     let want = |ev: &str| -> bool {
         let kind = match ev {
             "ensure" | "seeded" | "pop" | "emit" | "drained" | "tensure" => "mono",
             "pre_dce" => "dce",
             "gensym" => "gensym",
+            "solve_start" | "solve_round" => "solver",
             _ => "other",
         };
         kinds.iter().any(|k| k == kind || k == "all")
